@@ -5,11 +5,14 @@ Protocol (see lean/Driver/Cells.lean).  Cells are named by their key in `space._
 comma-separated ints (`1,2,0`; a network node or Voronoi index is a single int); `-` is None.
 
   scenario grid <moore|vn|hex> <torus 0|1> <cap|-> <d1,d2,...>
-  scenario net <directed 0|1> <cap|-> <n> [a-b ...]
+  scenario net <0|1|m0|m1> <cap|-> <n> [a-b ...]      (Graph | DiGraph | MultiGraph | MultiDiGraph on nodes 0..n-1; the edge list may
+                                                       hold self loops a-a, repeated and antiparallel edges)
   scenario vor <cap|-> <n> p:x,y ... t:a,b,c ...     (t: the exact Delaunay triangles, for the model)
   scenario vor d <n> p:... t:... a:num/den ...         (default capacity_function; a: the exact Voronoi cell areas, one per cell)
   new cell|fixed|g2d | set a c|- | moveto a c | moverel a key | move a Dir k | remove a
   tryrandom 0|1 | randempty d... | randcell d...           -> result + full observation dump
+  agentscopy c                                             -> `l = cell.agents; l.clear()` (a copy: nothing may change) + dump
+  clearcell c                                              -> `for a in cell.agents: a.remove()` + dump
   conns c | nbhd c r ic | nbprop c | mask c r ic           -> result only
   nbagents c r ic                                          -> agents in the (memoised) neighbourhood, sorted
   connect c c2 key|- | disconnect c c2                     -> result only (`Cell.connect(other, key)` / `Cell.disconnect(other)`
@@ -88,6 +91,20 @@ def _assigned_list(fn, var):
     raise LookupError(var)
 
 
+MEMO = "memo-on-all-arguments"
+
+
+def _norm_decorator(d):
+    """`cache`, `functools.cache`, `lru_cache(maxsize=…)` all memoise on the full argument tuple (a bounded table only forgets):
+    one name for them, so that swapping one for another stays quiet"""
+    u = ast.unparse(d)
+    f = d.func if isinstance(d, ast.Call) else d
+    base = f.attr if isinstance(f, ast.Attribute) else f.id if isinstance(f, ast.Name) else u
+    if base in ("cache", "lru_cache") and "typed=True" not in u.replace(" ", ""):
+        return MEMO
+    return base if base == "cached_property" else u
+
+
 def ast_tables(repo):
     """the literal tables as written in the source; raises LookupError if the shape is not found"""
     res = {}
@@ -133,6 +150,29 @@ def ast_tables(repo):
     if dm is None:
         raise LookupError("DIRECTION_MAP")
     res["directionMap"] = [(k, tuple(int(x) for x in v)) for k, v in dm.items()]
+    # the memoised neighbourhood methods of Cell: decorators and parameter lists (= the memo key of functools.cache), and the
+    # arguments get_neighborhood hands on to _neighborhood
+    tree = ast.parse(open(os.path.join(repo, "mesa/discrete_space/cell.py")).read())
+    cell = _find_class(tree, "Cell")
+    memo = []
+    for name in ("get_neighborhood", "_neighborhood", "neighborhood"):
+        fn = _find_func(cell, name)
+        a = fn.args
+        params = [x.arg for x in a.posonlyargs + a.args] + (["*" + a.vararg.arg] if a.vararg else []) + [x.arg for x in a.kwonlyargs] + (
+            ["**" + a.kwarg.arg] if a.kwarg else [])
+        memo.append((name, [_norm_decorator(d) for d in fn.decorator_list], params))
+    res["nbhdMemo"] = memo
+    inner = None
+    for n in ast.walk(_find_func(cell, "get_neighborhood")):
+        if isinstance(n, ast.Call) and isinstance(n.func, ast.Attribute) and n.func.attr == "_neighborhood":
+            # positional arguments are bound to the parameter names, so that a positional / keyword rewrite stays quiet
+            names = memo[1][2][1:]
+            bound = {names[i]: ast.unparse(x) for i, x in enumerate(n.args) if i < len(names)}
+            bound.update({k.arg: ast.unparse(k.value) for k in n.keywords if k.arg})
+            inner = [f"{k}={bound[k]}" for k in names if k in bound] + [f"{k}={v}" for k, v in bound.items() if k not in names]
+    if inner is None:
+        raise LookupError("get_neighborhood -> _neighborhood call")
+    res["nbhdInnerCall"] = inner
     return res
 
 
@@ -152,6 +192,22 @@ def probe_tables():
     res["hexProbeOdd"] = [tuple(int(x) for x in k) for k in g[2, 1].connections]
     res["hexProbeOdd3"] = [tuple(int(x) for x in k) for k in g[2, 3].connections]
     res["directionProbe"] = [(k, tuple(int(x) for x in v)) for k, v in Grid2DMovingAgent.DIRECTION_MAP.items()]
+    # the memoised methods as the running class has them: functools.cache wrappers (cache_clear) around functions with these
+    # parameters, a cached_property
+    import functools
+    import inspect
+
+    from mesa.discrete_space import Cell
+
+    memo = []
+    for name in ("get_neighborhood", "_neighborhood"):
+        f = Cell.__dict__[name]
+        how = [MEMO] if hasattr(f, "cache_clear") and hasattr(f, "__wrapped__") and not f.cache_parameters().get("typed") else ["?"]
+        memo.append((name, how, list(inspect.signature(getattr(f, "__wrapped__", f)).parameters)))
+    f = Cell.__dict__["neighborhood"]
+    memo.append(("neighborhood", ["cached_property"] if isinstance(f, functools.cached_property) else ["?"],
+                 list(inspect.signature(f.func).parameters) if isinstance(f, functools.cached_property) else []))
+    res["nbhdMemoProbe"] = memo
     return res
 
 
@@ -171,6 +227,14 @@ def _lean_dirs(l):
     return "[" + ",\n   ".join(f'("{k}", ({_lean_int(a)}, {_lean_int(b)}))' for k, (a, b) in l) + "]"
 
 
+def _lean_strs(l):
+    return "[" + ", ".join('"' + x.replace("\\", "\\\\").replace('"', '\\"') + '"' for x in l) + "]"
+
+
+def _lean_memo(m):
+    return "[" + ",\n   ".join(f'("{n}", {_lean_strs(d)}, {_lean_strs(a)})' for n, d, a in m) + "]"
+
+
 def gen_tables():
     """{relative lean path: content} — rewritten from MESA_REPO on every check"""
     pr = probe_tables()
@@ -181,7 +245,8 @@ def gen_tables():
         # harmless refactor of the literals' shape: fall back to what the running code uses
         at = {"moore2d": pr["mooreProbe2"], "vn2d": pr["vnProbe2"], "hexWhenOdd": pr["hexProbeOdd"],
               "hexWhenEven": pr["hexProbeEven"], "hexParityAxis": 1, "mooreNdBase": [-1, 0, 1],
-              "vnNdDeltas": [-1, 1], "directionMap": pr["directionProbe"]}
+              "vnNdDeltas": [-1, 1], "directionMap": pr["directionProbe"], "nbhdMemo": pr["nbhdMemoProbe"],
+              "nbhdInnerCall": ["radius=radius", "include_center=include_center"]}
         how = f"probe (AST shape not found: {type(e).__name__})"
     L = []
     L.append("/-! GENERATED by harness/cells_common.py `gen_tables()` from mesa/discrete_space/grid.py and")
@@ -208,6 +273,12 @@ def gen_tables():
     L.append(f"def hexProbeOdd : List (List Int) := {_lean_vecs(pr['hexProbeOdd'])}")
     L.append(f"def hexProbeOdd3 : List (List Int) := {_lean_vecs(pr['hexProbeOdd3'])}")
     L.append(f"def directionProbe : List (String × (Int × Int)) :=\n  {_lean_dirs(pr['directionProbe'])}")
+    L.append("/-- the memoised neighbourhood methods of `Cell` in the source: (name, decorators, parameters) — the parameters of a")
+    L.append("    `functools.cache`d method are its memo key -/")
+    L.append(f"def nbhdMemo : List (String × List String × List String) :=\n  {_lean_memo(at['nbhdMemo'])}")
+    L.append(f"def nbhdMemoProbe : List (String × List String × List String) :=\n  {_lean_memo(pr['nbhdMemoProbe'])}")
+    L.append("/-- the arguments `get_neighborhood` hands on to `_neighborhood` -/")
+    L.append(f"def nbhdInnerCall : List String := {_lean_strs(at['nbhdInnerCall'])}")
     L.append("")
     L.append("end Mesa.Cells.Gen")
     return {"MesaModel/Gen/CellTables.lean": "\n".join(L) + "\n"}
@@ -294,13 +365,16 @@ class Header:
         if self.kind == "grid":
             self.grid, self.torus, self.cap, self.dims = w[2], w[3] == "1", parse_opt_int(w[4]), parse_tuple(w[5])
         elif self.kind == "net":
-            self.directed, self.cap, self.n = w[2] == "1", parse_opt_int(w[3]), int(w[4])
+            # `m0` / `m1`: a MultiGraph / MultiDiGraph (parallel edges are kept by networkx; the adjacency is the same)
+            self.directed, self.multi, self.cap, self.n = w[2] in ("1", "m1"), w[2].startswith("m"), parse_opt_int(w[3]), int(w[4])
             self.edges = [tuple(int(x) for x in e.split("-")) for e in w[5:]]
         elif self.kind == "vor":
             # `d`: the default `capacity_function` (capacity = int(area * 500) per cell, areas given exactly as a:num/den)
             self.default_cap = w[2] == "d"
             self.cap, self.n = (None if self.default_cap else parse_opt_int(w[2])), int(w[3])
             self.areas = [Fraction(t[2:]) for t in w[4:] if t.startswith("a:")]
+            # `c:k` (only with `d`): `capacity=k` is passed too; `_build_cell_polygons` overwrites it on every cell
+            self.passed_cap = next((int(t[2:]) for t in w[4:] if t.startswith("c:")), None)
             self.points = [parse_tuple(t[2:]) for t in w[4:] if t.startswith("p:")]
             # optional `s:k`: the centroids are the integer points divided by k (connections are scale-invariant,
             # the code's fixed-size Bowyer-Watson frame is not)
@@ -341,7 +415,8 @@ class Impl:
             elif h.kind == "net":
                 import networkx as nx
 
-                G = nx.DiGraph() if h.directed else nx.Graph()
+                G = {(False, False): nx.Graph, (True, False): nx.DiGraph, (False, True): nx.MultiGraph,
+                     (True, True): nx.MultiDiGraph}[h.directed, h.multi]()
                 G.add_nodes_from(range(h.n))
                 G.add_edges_from(h.edges)
                 self.space = ds.Network(G, capacity=h.cap, random=self.rng)
@@ -349,7 +424,7 @@ class Impl:
                 cap = h.cap
                 pts = [[x / h.scale for x in p] for p in h.points]
                 if h.default_cap:
-                    self.space = ds.VoronoiGrid(pts, random=self.rng)
+                    self.space = ds.VoronoiGrid(pts, random=self.rng, **({} if h.passed_cap is None else {"capacity": h.passed_cap}))
                 else:
                     self.space = ds.VoronoiGrid(pts, capacity=cap, random=self.rng, capacity_function=lambda area: cap)
         except ValueError:
@@ -372,13 +447,16 @@ class Impl:
             data = sp.empty.data
             layer = " ".join(self.cname(c) for c in cells if bool(data[c.coordinate]))
             pempty = " ".join(self.cname(c) for c in cells if bool(c.empty))
+            attr = "na"
         else:
             layer = pempty = "na"
+            # no property layer: `cell.empty` is a plain attribute that exists only once add_agent has run on the cell
+            attr = " ".join(f"{self.cname(c)}:{int(bool(c.empty))}" for c in cells if hasattr(c, "empty"))
         empties = " ".join(self.cname(c) for c in sp.empties)
         agents = " ".join(str(a._vidx) for a in sp.agents)
         reg = " ".join(str(a._vidx) for a in self.model.agents)
         return (f"ag={ag} | occ={occ} | empty={empty} | full={full} | layer={layer} | pempty={pempty} | "
-                f"empties={empties} | agents={agents} | reg={reg}")
+                f"empties={empties} | agents={agents} | reg={reg} | attr={attr}")
 
     # ------------------------------------------------------------------ ops
     def mutate(self, w):
@@ -398,6 +476,17 @@ class Impl:
         if k == "randcell":
             self.rng.script = [int(x) for x in w[1:]]
             return "ok " + self.cname(sp.all_cells.select_random_cell())
+        if k == "agentscopy":
+            # the list `cell.agents` hands out belongs to the caller: emptying it must not empty the cell
+            held = sp[self.h.key(w[1])].agents
+            res = "ok " + ".".join(str(a._vidx) for a in held)
+            held.clear()
+            return res
+        if k == "clearcell":
+            # the idiom for emptying a cell: iterate over the copy while the agents leave the cell's own list
+            for a in sp[self.h.key(w[1])].agents:
+                a.remove()
+            return "ok"
         i = int(w[1])
         if i >= len(self.agents):
             return "err NoAgent"
@@ -900,7 +989,9 @@ def gen_grid_header(R, max_axes=3, max_size=4, caps=(None, None, 1, 1, 2, 3), ma
     return f"scenario grid {kind} {R.randint(0, 1)} {'-' if cap is None else cap} {','.join(map(str, dims))}"
 
 
-def gen_net_header(R, max_nodes=8, caps=(None, None, 1, 1, 2, 3), directed_p=0.15):
+def gen_net_header(R, max_nodes=8, caps=(None, None, 1, 1, 2, 3), directed_p=0.15, rich=False):
+    """`rich`: beyond simple graphs — self loops, repeated and antiparallel edges, either orientation of an undirected edge,
+    MultiGraph / MultiDiGraph (about 45% of the headers)"""
     n = R.randint(1, max_nodes)
     p = R.choice([0.0, 0.2, 0.4, 0.7])
     edges = [(a, b) for a in range(n) for b in range(a + 1, n) if R.random() < p]
@@ -908,14 +999,33 @@ def gen_net_header(R, max_nodes=8, caps=(None, None, 1, 1, 2, 3), directed_p=0.1
     directed = R.random() < directed_p
     if directed:
         edges = [(a, b) if R.random() < 0.5 else (b, a) for a, b in edges]
+    multi = False
+    if rich and R.random() < 0.45:
+        multi = R.random() < 0.35
+        extra = []
+        for _ in range(R.choice([1, 1, 2, 3])):
+            k = R.random()
+            if k < 0.45 or not edges:
+                a = R.randrange(n)
+                extra.append((a, a))  # self loop
+            elif k < 0.75:
+                extra.append(R.choice(edges))  # the same edge again
+            else:
+                a, b = R.choice(edges)
+                extra.append((b, a))  # antiparallel (DiGraph: a second connection; Graph: the same edge)
+        if not directed:
+            edges = [(a, b) if R.random() < 0.6 else (b, a) for a, b in edges]
+        for e in extra:
+            edges.insert(R.randrange(len(edges) + 1), e)
     cap = R.choice(caps)
-    return f"scenario net {int(directed)} {'-' if cap is None else cap} {n} " + " ".join(f"{a}-{b}" for a, b in edges)
+    kind = ("m" if multi else "") + str(int(directed))
+    return f"scenario net {kind} {'-' if cap is None else cap} {n} " + " ".join(f"{a}-{b}" for a, b in edges)
 
 
 FALLBACK_POINTS = [(-3, -6), (6, -9), (3, 4), (-9, 5), (-1, -2)]  # in general position, also with the frame corners
 
 
-def gen_vor_default_header(R, max_points=7):
+def gen_vor_default_header(R, max_points=7, rich=False):
     """a VoronoiGrid with the default capacity_function: a small cluster in units of 1/16 .. 1/64 so that inner cells get
     capacities of a few agents (int(area * 500)); None if no suitable point set was found"""
     for _ in range(60):
@@ -935,14 +1045,15 @@ def gen_vor_default_header(R, max_points=7):
             continue
         if not any(1 <= c <= 4 for c in caps) and R.random() < 0.8:
             continue
+        passed = f" c:{R.choice([1, 1, 2, 5])}" if rich and R.random() < 0.4 else ""
         return (f"scenario vor d {n} " + " ".join(f"p:{x},{y}" for x, y in pts) + " " + " ".join(f"t:{a},{b},{c}" for a, b, c in tris)
-                + f" s:{scale} " + " ".join(f"a:{a.numerator}/{a.denominator}" for a in areas))
+                + f" s:{scale} " + " ".join(f"a:{a.numerator}/{a.denominator}" for a in areas) + passed)
     return None
 
 
-def gen_vor_header(R, max_points=7, caps=(None, None, 1, 1, 2, 3), span=9, default_cap=False):
+def gen_vor_header(R, max_points=7, caps=(None, None, 1, 1, 2, 3), span=9, default_cap=False, rich=False):
     if default_cap:
-        hd = gen_vor_default_header(R, max_points)
+        hd = gen_vor_default_header(R, max_points, rich=rich)
         if hd is not None:
             return hd
     scale = 1
@@ -970,13 +1081,19 @@ def gen_vor_header(R, max_points=7, caps=(None, None, 1, 1, 2, 3), span=9, defau
             + " ".join(f"t:{a},{b},{c}" for a, b, c in tris) + (f" s:{scale}" if scale != 1 else ""))
 
 
-def gen_header(R, default_caps=False, **kw):
+RICH_CAPS = (None, None, None, 1, 1, 1, 2, 2, 3, 3, 0)  # capacity 0 (SC3): the cell refuses everybody and is full from the start
+
+
+def gen_header(R, default_caps=False, rich=False, **kw):
+    """`rich` (C06 / C07 only; C18 and C19 keep the plain headers): non-simple networks and capacity 0"""
     k = R.random()
+    if rich:
+        kw = dict(kw, caps=RICH_CAPS)
     if k < 0.6:
         return gen_grid_header(R, **kw)
     if k < 0.85:
-        return gen_net_header(R)
-    return gen_vor_header(R, default_cap=default_caps and R.random() < 0.5)
+        return gen_net_header(R, rich=rich, **({"caps": RICH_CAPS} if rich else {}))
+    return gen_vor_header(R, default_cap=default_caps and R.random() < 0.5, **({"caps": RICH_CAPS, "rich": True} if rich else {}))
 
 
 def cell_names(h):
@@ -1077,8 +1194,8 @@ def gen_coll(R, h, names, impl=None, agents=True):
     return f"coll {expr} {verb}"
 
 
-def gen_c06(R, rejecting=False, n_ops=None, header=None, edits=False, default_caps=False):
-    hd = header or (gen_header(R, default_caps=default_caps) if not rejecting else
+def gen_c06(R, rejecting=False, n_ops=None, header=None, edits=False, default_caps=False, rich=False):
+    hd = header or (gen_header(R, default_caps=default_caps, rich=rich) if not rejecting else
                     R.choice([gen_grid_header(R, max_size=3, caps=(1, 1, 1, 2), max_cells=12),
                               gen_grid_header(R, max_size=3, caps=(1, 1, 1, 2), max_cells=12),
                               gen_net_header(R, max_nodes=5, caps=(1, 1, 2)),
@@ -1128,6 +1245,16 @@ def gen_c06(R, rejecting=False, n_ops=None, header=None, edits=False, default_ca
         if R.random() < (0.05 if rejecting else 0.12):
             # the CellCollection API on all_cells / empties / neighbourhoods / selections, at the current occupancy
             emit(gen_coll(R, h, names, impl).rstrip())
+            continue
+        if rich and R.random() < 0.045:
+            # `cell.agents` is a copy (scribbling on it changes nothing) and the idiom that relies on it: emptying a cell
+            # by `for a in cell.agents: a.remove()`; mostly on occupied cells, preferably with several agents
+            occd = [n for n in names if impl.space[h.key(n)]._agents]
+            many = [n for n in occd if len(impl.space[h.key(n)]._agents) >= 2]
+            c = R.choice(many) if many and R.random() < 0.6 else R.choice(occd) if occd and R.random() < 0.85 else R.choice(names)
+            if R.random() < 0.03:
+                c = ",".join(str(d) for d in h.dims) if h.kind == "grid" else str(h.n + 1)  # no such cell
+            emit(f"{R.choice(['agentscopy', 'agentscopy', 'clearcell'])} {c}")
             continue
         if edits and R.random() < 0.05:
             # connections edited after construction, mostly at the cell of an agent that can move: later relative moves
@@ -1257,22 +1384,32 @@ def oracle_c06(sc, obs, reject_clause=True):
                 bad.append(f"mirror: after `{line}` agent {a} reports cell {c} but is listed in {where}")
         # capacity (per cell: a VoronoiGrid with the default capacity_function gives every cell its own)
         for n in names:
-            if capof[n] and len(occ[n]) > capof[n]:
+            if capof[n] is not None and len(occ[n]) > capof[n]:
                 bad.append(f"capacity: after `{line}` cell {n} holds {len(occ[n])} > {capof[n]}")
         # emptiness views
         truth = [n for n in names if not occ[n]]
         if d["empty"] != truth:
             bad.append(f"view-is_empty: after `{line}` is_empty cells {d['empty']} != {truth}")
-        # is_full: exactly the cells holding as many agents as their capacity (capacity 0 — a tiny Voronoi cell under the
-        # default capacity_function — is outside the property's quantifier and skipped)
-        tf = [n for n in names if capof[n] and len(occ[n]) == capof[n]]
-        if [n for n in d["full"] if capof[n] != 0] != tf:
+        # is_full: exactly the cells holding as many agents as their capacity (capacity 0 — e.g. a tiny Voronoi cell under the
+        # default capacity_function — is a capacity: such a cell is full from the start and never holds anybody, SC3)
+        tf = [n for n in names if capof[n] is not None and len(occ[n]) == capof[n]]
+        if d["full"] != tf:
             bad.append(f"view-is_full: after `{line}` is_full cells {d['full']} != {tf}")
         if h.kind == "grid":
             if d["layer"] != truth:
                 bad.append(f"view-layer: after `{line}` grid.empty.data true at {d['layer']} != empty cells {truth}")
             if d["pempty"] != truth:
                 bad.append(f"view-cell.empty: after `{line}` cell.empty true at {d['pempty']} != empty cells {truth}")
+        if h.kind != "grid" and "attr" in d:
+            # `cell.empty` where it exists (the cell has been entered at least once) says whether the cell is empty now; a cell
+            # without the attribute has never been entered
+            for t in d["attr"]:
+                n, _, v = t.partition(":")
+                if (v == "1") != (not occ[n]):
+                    bad.append(f"view-cell.empty: after `{line}` cell {n} has empty={v} but holds {occ[n]}")
+            unset = set(names) - {t.partition(":")[0] for t in d["attr"]}
+            if any(occ[n] for n in unset):
+                bad.append(f"view-cell.empty: after `{line}` occupied cells {[n for n in unset if occ[n]]} have no `empty` attribute")
         if sorted(d["empties"]) != sorted(truth):
             bad.append(f"view-empties: after `{line}` space.empties {d['empties']} != {truth}")
         if sorted(d["agents"]) != sorted(x for n in names for x in occ[n]):
@@ -1287,6 +1424,15 @@ def oracle_c06(sc, obs, reject_clause=True):
                 bad.append(f"remove: after `{line}` agent {w[1]} is still listed in a cell")
             if w[1] in reg:
                 bad.append(f"remove: after `{line}` agent {w[1]} is still registered")
+        # `cell.agents` is a copy: emptying the list it handed out changes nothing
+        if w[0] == "agentscopy" and prev is not None and d != prev:
+            bad.append(f"agents-copy: `{line}` (clearing the list returned by cell.agents) changed {[k for k in d if d[k] != prev.get(k)]}")
+        # emptying a cell by iterating over cell.agents removes every agent that was in it
+        if w[0] == "clearcell" and res == "ok" and prev is not None:
+            was = next((t.partition(":")[2].split(".") for t in prev["occ"] if t.partition(":")[0] == w[1]), [])
+            left = [a for a in was if a in reg or any(a in occ[n] for n in names)]
+            if left or (w[1] in occ and occ[w[1]]):
+                bad.append(f"clearcell: after `{line}` agents {left} of the cell are still in a cell / the model; the cell holds {occ.get(w[1])}")
         # (C18) a rejected placing call changes nothing
         if reject_clause and w[0] in PLACING and res.startswith("err") and prev is not None and d != prev:
             diff = [k for k in d if d[k] != prev.get(k)]
@@ -1295,9 +1441,26 @@ def oracle_c06(sc, obs, reject_clause=True):
     return bad
 
 
+def net_tags(w0):
+    """what kind of graph a `scenario net` header describes"""
+    edges = [tuple(e.split("-")) for e in w0[5:]]
+    if w0[2] in ("1", "m1"):
+        yield "directed"
+    if w0[2].startswith("m"):
+        yield "net:multigraph"
+    if any(a == b for a, b in edges):
+        yield "net:self-loop"
+    if len(set(edges)) < len(edges):
+        yield "net:repeated-edge"
+    if any((b, a) in edges for a, b in edges if a != b):
+        yield "net:antiparallel-edges"
+
+
 def tags_c06(sc, obs):
     w0 = sc.lines[0].split()
     yield "space:" + (w0[2] if w0[1] == "grid" else w0[1])
+    if w0[1] == "net":
+        yield from net_tags(w0)
     if w0[1] == "grid":
         yield f"axes:{len(w0[5].split(','))}"
         yield "torus:" + w0[3]
@@ -1306,6 +1469,8 @@ def tags_c06(sc, obs):
         yield "cap:" + (w0[3] if w0[1] == "net" else w0[2] if w0[2] != "d" else "default-capacity-function")
         if w0[2] == "d":
             h = Header(w0)
+            if h.passed_cap is not None:
+                yield "voronoi-default-capacity:overrides-the-capacity-argument"
             for c in sorted({min(h.capof(n), 9) for n in cell_names(h)}):
                 yield f"voronoi-default-capacity:{c if c < 9 else '9+'}"
     prev = None
@@ -1318,6 +1483,9 @@ def tags_c06(sc, obs):
             yield "coll-base:" + w[1].split("+")[0].split(":")[0] + ("+select" if "+" in w[1] else "")
             if w[2] in ("randcell", "randagent") and res.startswith("ok") and len(w) > 4:
                 yield "coll:spare-draws-left-alone"
+        if w[0] in ("agentscopy", "clearcell") and prev is not None and res.startswith("ok"):
+            n = next((len(t.partition(":")[2].split(".")) for t in prev["occ"] if t.partition(":")[0] == w[1]), 0)
+            yield f"{w[0]}:{'empty-cell' if n == 0 else '1-agent' if n == 1 else 'several-agents'}"
         if res.startswith("err"):
             yield f"reject:{w[0]}:{res.split()[1]}"
         if w[0] == "move" and w0[1] == "grid" and w0[2] == "hex":
@@ -1331,6 +1499,9 @@ def tags_c06(sc, obs):
             b = dict(t.split(":") for t in prev["ag"]).get(w[1])
             if a == b and a not in (None, "-"):
                 yield "branch:re-entered-own-cell"
+                if w[0] in ("moverel", "move"):
+                    # a connection that leads back to the cell itself (self loop of a Network, torus axis of size 1, an edit)
+                    yield "branch:re-entered-own-cell-along-a-connection"
         if "|" in o:
             prev = parse_dump(o)[1]
 
@@ -1435,9 +1606,15 @@ def gen_c07(R, tier):
         # hex; odd offset-axis sizes on a torus are outside the property's quantifier but the model follows the code
         hd = grid_header("hex", R.randint(0, 1), (R.randint(1, 6), R.choice([1, 2, 2, 3, 4, 4, 5, 6, 6])), None)
     elif k < 0.80:
-        hd = gen_net_header(R, max_nodes=12, caps=(None,), directed_p=0.2)
+        hd = gen_net_header(R, max_nodes=12, caps=(None,), directed_p=0.2, rich=True)
     else:
         hd = gen_vor_header(R, max_points=9 if tier == "thorough" else 8, caps=(None,))
+    if R.random() < 0.02:
+        # what `_validate_parameters` refuses: a non-positive size, a HexGrid that is not 2-D (the rest of the scenario then
+        # talks to no space)
+        bad = R.choice([grid_header(R.choice(["moore", "vn", "hex"]), R.randint(0, 1), R.choice([(0, 3), (2, 0), (2, -1), (0,)])),
+                        grid_header("hex", R.randint(0, 1), R.choice([(3,), (2, 2, 2)]))])
+        return core.Scenario([bad, "conns 0,0", "nbhd 0,0 1 0"])
     h = Header(hd.split())
     names = cell_names(h)
     lines = [hd]
@@ -1564,6 +1741,8 @@ def oracle_c07(sc, obs):
 
 def tags_c07(sc, obs):
     w0 = sc.lines[0].split()
+    if obs[0] != "ok":
+        yield "constructor-refuses:" + ("hex-not-2d" if w0[2] == "hex" and len(w0[5].split(",")) != 2 else "non-positive-size")
     yield "space:" + (w0[2] if w0[1] == "grid" else w0[1])
     if w0[1] == "grid":
         dims = w0[5].split(",")
@@ -1573,8 +1752,8 @@ def tags_c07(sc, obs):
             yield "axis-of-size-1"
         if "2" in dims:
             yield "axis-of-size-2"
-    if w0[1] == "net" and w0[2] == "1":
-        yield "directed"
+    if w0[1] == "net":
+        yield from net_tags(w0)
     seen = set()
     for l, o in zip(sc.lines[1:], obs[1:]):
         w = l.split()
